@@ -652,6 +652,32 @@ class C20(object):
         mod = sys.modules["ImageD11._cImageD11"]
         if mod.NPROPERTY != NPROPERTY or mod.NPROPERTY2D != NPROPERTY2D:
             raise runner.HarnessError("NPROPERTY changed: %d %d" % (mod.NPROPERTY, mod.NPROPERTY2D))
+        self.strict_selftest(ctx)
+
+    def strict_selftest(self, ctx):
+        """the checker must see what it claims to see: known-bad calls have to be reported, at the right place"""
+        sim = ctx.sim
+        cfg = enginea.draw_cfg(random.Random(1), max_team=1)
+        i1 = np.array([0, 0, 1], np.uint16)
+        j1 = np.array([0, 1, 1], np.uint16)
+        # 1. an output array registered one element short
+        vals = {"i1": i1, "j1": j1, "k1": [2], "nnz1": 3, "i2": i1, "j2": j1, "k2": [3], "nnz2": 3}
+        roles = {"i1": "in", "j1": "in", "k1": "out", "i2": "in", "j2": "in", "k2": "out"}
+        ret, arr, st = kernels.run_kernel(sim, "sparse_overlaps", vals, roles, cfg, track_conflicts=0)
+        if st["violation"] != "oob" or st["viol_off"] != 8 or st["viol_rw"] != 2:
+            raise runner.HarnessError("strict-mode self-test: a write one element past k1 was not reported (got %s)" % st["violation"])
+        # 2. a write into a read-only region
+        vals = {"img": np.ones((3, 3), np.float32), "cut": 0.5, "msk": np.zeros((3, 3), np.int8), "ret": [3, 3], "ns": 3, "nf": 3}
+        ret, arr, st = kernels.run_kernel(sim, "make_clean_mask", vals, {"img": "in", "msk": "in", "ret": "out"}, cfg, track_conflicts=0)
+        if st["violation"] != "write-to-readonly":
+            raise runner.HarnessError("strict-mode self-test: a write into a read-only region was not reported")
+        # 3. garbage differential sees an output that is not written
+        d = {"entry": "sparse_connectedpixels_splat", "cfg": cfg, "gstyle": 0,
+             "vals": {"v": [5.0, 0.0], "i": [0, 0], "j": [0, 1], "nnz": 2, "th": 1.0, "lbl": [2], "Z": [3 * 4], "ni": 1, "nj": 2},
+             "roles": {"v": "in", "i": "in", "j": "in", "lbl": "out", "Z": "work"}, "promise": {"lbl": "all"}}
+        r = self.execute(d, ctx)
+        if not r["viol"] or r["viol"]["class"] != "garbage-dependent":
+            raise runner.HarnessError("garbage-differential self-test: an unwritten output byte was not reported")
 
     def gen(self, rs, ctx):
         rnd = random.Random(rs)
